@@ -48,6 +48,9 @@ func init() {
 			{World: "pool", Quick: b(1, 1, 1), Thorough: b(2, 2, 2), OneEnv: true},
 			{World: "stake", Quick: b(1, 1, 2), Thorough: b(2, 2, 2), OneEnv: true},
 			{World: "valbyz", Quick: b(0, 0, 2), Thorough: b(0, 0, 3)},
+			// blocks that re-price the block reward (header times around noon): the price record of the app DB changes
+			{World: "mint", Quick: b(0, 0, 2), Thorough: b(1, 1, 3)},
+			{World: "mint-rec", Quick: b(0, 0, 2), Thorough: b(1, 1, 3)},
 		}
 		for i := range runs {
 			runs[i].Prepare = smallKeep
